@@ -329,11 +329,18 @@ def run_model(model, M, tier, seed, wdir, extra_behaviours=None):
             res["mc"].append({k: r[k] for k in ("name", "states", "distinct", "depth", "violated", "wall", "replay_lines", "reused")})
             res["e1_wall"] += 0 if r["reused"] else r["wall"]
             if r["replay_lines"]:
-                with open(beh_all, "a") as g:
+                # a configuration marked replay_all is a directed one (few behaviours, all of them wanted): it is
+                # replayed in full whatever the sample size
+                with open(beh_all if not mc.get("replay_all") else beh_all + ".always", "a") as g:
                     g.write(open(r["replay_file"]).read())
         beh = os.path.join(wdir, "beh_sample.ndjson")
         res["behaviours_emitted"] = sum(1 for _ in open(beh_all))
         res["behaviours_replayed"] = sample_lines(beh_all, beh, T.get("sample"), rng)
+        if os.path.exists(beh_all + ".always"):
+            extra = open(beh_all + ".always").read()
+            open(beh, "a").write(extra)
+            res["behaviours_emitted"] += extra.count("\n")
+            res["behaviours_replayed"] += extra.count("\n")
     else:
         beh = extra_behaviours
         res["behaviours_emitted"] = res["behaviours_replayed"] = sum(1 for _ in open(beh))
